@@ -15,6 +15,20 @@ CLAIMED = {
         ref="DESIGN.md §6 C03"),
 }
 
+SANDWICH = "TLC enumerates every terminal state of LoomSem (reference semantics, no reduction) for each program of the family under the strongest (Lower) and weakest (Upper) documented synchronisation; the real loom::model on the same program must satisfy Lower(P) subset-of loom(P) subset-of Upper(P), report a failure kind iff the spec reaches it, and every recorded iteration must be accepted by LoomSemTrace (enabling conditions evaluated at each event)."
+TRUST = "Trusted: LoomSem as the documented semantics (std + loom docs, DESIGN.md App. B), the DSL interpreter's logging discipline, TLC. Open findings are listed in known_findings.json; generated programs avoid their triggers (quarantine) or waive the affected comparison, directed shapes re-confirm them."
+for _pid, _tech, _fam, _ref in [
+    ("C01", "TLC full interleaving enumeration of LoomSem vs. outcome set of real loom::model; trace validation (LoomSemTrace)", "SyncMix (every mix of object kinds, SeqCst atomics)", "C01"),
+    ("C04", "TLC reachability of Race in LoomSem (vector-clock happens-before) vs. loom's causality panic; trace validation of the failing iteration's state", "RaceIdioms (each synchronisation idiom, correct and broken) + random", "C04"),
+    ("C05", "TLC reachability of Deadlock in LoomSem vs. loom's deadlock panic; trace validation pins the report to a deadlocked spec state", "Blocking (lock inversions, lost wake-ups, park tokens, channels)", "C05"),
+    ("C07", "trace validation against LoomSem's lock machine (owner/readers, try_* both directions, hand-over views) + outcome-set sandwich", "Locks (2 mutexes, rwlock, nested/overlapping sections, protected cells)", "C07"),
+    ("C08", "trace validation against LoomSem's wait/notify machine (condvar 3-step wait, Notify flag + one spurious return, park token, join) + outcome/deadlock sandwich", "WaitNotify", "C08"),
+    ("C09", "trace validation against LoomSem's FIFO channel + outcome-set sandwich + leak/deadlock kinds", "Chan (1-3 senders, recv/try_recv, receiver drop)", "C09"),
+    ("C10", "TLC reachability of Leak kinds at termination in LoomSem vs. loom's leak panics (kind must match)", "Leaks (arcs, Track, channel; every release route; schedule-dependent leaks)", "C10"),
+    ("C11", "outcome-set sandwich against LoomSem's reference-count machine + trace validation of returned counts + payload drop counter + race detector on the payload cell", "Arcs", "C11"),
+]:
+    CLAIMED[_pid] = dict(technique=_tech, text=SANDWICH + " Family: " + _fam + ".", note=TRUST, ref="DESIGN.md §6 " + _ref)
+
 PENDING = "check not built yet in this round (framework in progress; see DESIGN.md §10 build order)"
 
 def main():
@@ -23,7 +37,7 @@ def main():
     hooks = [l.split()[0] for l in head if "verification hooks" in l or l.split(" ", 1)[1].startswith("hook:")]
     m = {
         "version": 1,
-        "setup_cmd": "cd /verif/harness && (test -f Cargo.lock || cp /repo/Cargo.lock .) && CARGO_NET_OFFLINE=true cargo build --release --offline && cd /verif/specs && for f in LoomSem MCSem; do tla-sany $f.tla >/dev/null || exit 1; done",
+        "setup_cmd": "cd /verif/harness && (test -f Cargo.lock || cp /repo/Cargo.lock .) && CARGO_NET_OFFLINE=true cargo build --release --offline && cd /verif/specs && for f in LoomSem MCSem LoomSemTrace; do tla-sany $f.tla >/dev/null || exit 1; done",
         "hooks": {
             "guard": "cargo feature `verif` (implies `checkpoint`)",
             "enable": "harness/Cargo.toml: loom = { path = \"/repo\", features = [\"verif\", \"futures\"] }",
